@@ -123,6 +123,9 @@ fn float_random(log: &mut Log, rng: &mut Rng) {
         sb = IBig::ONE;
     }
     let sa = if op == "inv" && sa == IBig::ZERO { IBig::ONE } else { sa };
+    // an exactly zero operand now and then (zero has its own branch in most operators; 0 with a non-zero exponent would be
+    // the encoding of an infinity)
+    let sa = if op != "inv" && rng.below(12) == 0 { IBig::ZERO } else { sa };
     // moderate magnitudes for the series-based methods (their cost grows with the magnitude); a positive base for
     // powf / ln / sqrt most of the time (a negative one must panic in every form alike)
     let sa = if transcendental && rng.below(8) != 0 { IBig::from(UBig::try_from(if sa < IBig::ZERO { -sa } else { sa }).unwrap()) } else { sa };
